@@ -1,12 +1,13 @@
 (* C11 — property theorems only. Each is closed by [exact] of a lemma of Proofs*.v.
    Conventions: a stored matrix d stands for the mathematical matrix [absd d] (entries [getv d i j]) on the index range
    nr d x nc d; [meq m n A B] is entry-wise equality on that range; all sizes are universally quantified (1 x n, n x 1
-   and empty shapes included).  "_refuted" theorems exhibit the inputs on which the faithful model of the code violates
-   the contract of the Eigen primitive it calls (or returns something else than linear algebra defines); the same inputs
-   are replayed on the library by checks/C11.py. *)
-From Coq Require Import List ZArith QArith Bool Arith Sorted Permutation.
+   and empty shapes included).  A wrapper theorem "exists r, W args = Ok r /\ ..." states at once that no contract of an
+   Eigen primitive is violated (the model returns [UB] when one is) and that the result is the mathematical one.  The
+   inputs on which the code of the pinned tree failed these statements before the fixes C11_1..C11_9 are kept as
+   regression cases in corpus/C11.sx. *)
+From Coq Require Import List ZArith QArith Qabs Bool Arith Sorted Permutation.
 From Gst Require Import lib.QAux C11.Sums C11.Spec C11.Model C11.Model_sparse C11.Model_vec
-  C11.Proofs C11.Proofs_ops C11.Proofs_sparse C11.Proofs_vec C11.Proofs_more.
+  C11.Proofs C11.Proofs_ops C11.Proofs_sparse C11.Proofs_vec C11.Proofs_more C11.Proofs_dupl.
 Import ListNotations.
 Local Open Scope Q_scope.
 
@@ -48,53 +49,40 @@ Theorem C11_prodNormMatVec_dense_novec : forall d a t, nr d = dimr t a -> nc d =
 Proof. exact prodNormMatVec_dense_novec. Qed.
 Print Assumptions C11_prodNormMatVec_dense_novec.
 
-(* with a non-empty vector the wrapper multiplies by the mapped vector instead of its diagonal matrix *)
-Theorem C11_no_ub_prodNormMatVec_refuted : exists d a v c,
-  wfd a /\ length v = nc a /\ nr d = nr a /\ nc d = nr a /\ D_prodNormMatVec d a v false = UB c.
-Proof. exact prodNormMatVec_dense_refuted. Qed.
-Print Assumptions C11_no_ub_prodNormMatVec_refuted.
+Theorem C11_no_ub_prodNormMatVec : forall d a v t, v <> [] -> length v = dimc t a -> nr d = dimr t a -> nc d = dimr t a ->
+  exists r, D_prodNormMatVec d a v t = Ok r /\ nr r = nr d /\ nc r = nc d /\ wfd r /\
+    meq (nr d) (nc d) (absd r) (mcongr_diag t (dimc t a) (absd a) (vl v)).
+Proof. exact prodNormMatVec_dense. Qed.
+Print Assumptions C11_no_ub_prodNormMatVec.
 
-(* row / column scaling: right on square matrices, a contract violation on any other shape *)
-Theorem C11_multiplyRow_dense_square : forall d v, nr d = nc d -> length v = nr d ->
-  exists r, D_multiplyRow d v = Ok r /\ nr r = nr d /\ nc r = nc d /\ meq (nr d) (nc d) (absd r) (mrowscale (vl v) (absd d)).
-Proof. exact multiplyRow_dense_square. Qed.
-Print Assumptions C11_multiplyRow_dense_square.
-Theorem C11_multiplyColumn_dense_square : forall d v, nr d = nc d -> length v = nc d ->
-  exists r, D_multiplyColumn d v = Ok r /\ nr r = nr d /\ nc r = nc d /\ meq (nr d) (nc d) (absd r) (mcolscale (vl v) (absd d)).
-Proof. exact multiplyColumn_dense_square. Qed.
-Print Assumptions C11_multiplyColumn_dense_square.
-Theorem C11_no_ub_multiplyRow_refuted : exists d v c, wfd d /\ length v = nr d /\ D_multiplyRow d v = UB c.
-Proof. exact multiplyRow_dense_refuted. Qed.
-Print Assumptions C11_no_ub_multiplyRow_refuted.
-Theorem C11_no_ub_multiplyColumn_refuted : exists d v c, wfd d /\ length v = nc d /\ D_multiplyColumn d v = UB c.
-Proof. exact multiplyColumn_dense_refuted. Qed.
-Print Assumptions C11_no_ub_multiplyColumn_refuted.
-Theorem C11_no_ub_divideRow_refuted : exists d v c,
-  wfd d /\ length v = nr d /\ (forall x, In x v -> ~ x == 0) /\ D_divideRow d v = UB c.
-Proof. exact divideRow_dense_refuted. Qed.
-Print Assumptions C11_no_ub_divideRow_refuted.
-Theorem C11_no_ub_divideColumn_refuted : exists d v c,
-  wfd d /\ length v = nc d /\ (forall x, In x v -> ~ x == 0) /\ D_divideColumn d v = UB c.
-Proof. exact divideColumn_dense_refuted. Qed.
-Print Assumptions C11_no_ub_divideColumn_refuted.
-(* in-place products with the transposed matrix map both vectors with the untransposed sizes *)
-Theorem C11_no_ub_prodMatVecInPlace_refuted : exists d x y c,
-  wfd d /\ length x = nr d /\ length y = nc d /\ D_prodMatVecInPlace d x y true = UB c.
-Proof. exact prodMatVecInPlace_dense_refuted. Qed.
-Print Assumptions C11_no_ub_prodMatVecInPlace_refuted.
-Theorem C11_no_ub_prodVecMatInPlace_refuted : exists d x y c,
-  wfd d /\ length x = nc d /\ length y = nr d /\ D_prodVecMatInPlace d x y true = UB c.
-Proof. exact prodVecMatInPlace_dense_refuted. Qed.
-Print Assumptions C11_no_ub_prodVecMatInPlace_refuted.
-
-Theorem C11_addScalar_dense : forall d v, wfd d ->
-  exists r, D_addScalar d v = Ok r /\ nr r = nr d /\ nc r = nc d /\ meq (nr d) (nc d) (absd r) (maddc v (absd d)).
-Proof. exact addScalar_dense. Qed.
-Print Assumptions C11_addScalar_dense.
-Theorem C11_prodScalar_dense : forall d v, wfd d ->
-  exists r, D_prodScalar d v = Ok r /\ nr r = nr d /\ nc r = nc d /\ meq (nr d) (nc d) (absd r) (mscal v (absd d)).
-Proof. exact prodScalar_dense. Qed.
-Print Assumptions C11_prodScalar_dense.
+(* row / column scaling: the vector is mapped with the dimension it multiplies, for every shape *)
+Theorem C11_no_ub_multiplyRow : forall d v, length v = nr d ->
+  exists r, D_multiplyRow d v = Ok r /\ nr r = nr d /\ nc r = nc d /\ wfd r /\ meq (nr d) (nc d) (absd r) (mrowscale (vl v) (absd d)).
+Proof. exact multiplyRow_dense. Qed.
+Print Assumptions C11_no_ub_multiplyRow.
+Theorem C11_no_ub_multiplyColumn : forall d v, length v = nc d ->
+  exists r, D_multiplyColumn d v = Ok r /\ nr r = nr d /\ nc r = nc d /\ wfd r /\ meq (nr d) (nc d) (absd r) (mcolscale (vl v) (absd d)).
+Proof. exact multiplyColumn_dense. Qed.
+Print Assumptions C11_no_ub_multiplyColumn.
+Theorem C11_no_ub_divideRow : forall d v, length v = nr d ->
+  exists r, D_divideRow d v = Ok r /\ nr r = nr d /\ nc r = nc d /\ wfd r /\ meq (nr d) (nc d) (absd r) (mrowdiv (vl v) (absd d)).
+Proof. exact divideRow_dense. Qed.
+Print Assumptions C11_no_ub_divideRow.
+Theorem C11_no_ub_divideColumn : forall d v, length v = nc d ->
+  exists r, D_divideColumn d v = Ok r /\ nr r = nr d /\ nc r = nc d /\ wfd r /\ meq (nr d) (nc d) (absd r) (mcoldiv (vl v) (absd d)).
+Proof. exact divideColumn_dense. Qed.
+Print Assumptions C11_no_ub_divideColumn.
+(* in-place products with a vector: both transposition flags, every shape *)
+Theorem C11_no_ub_prodMatVecInPlace : forall d x y t, length x = dimc t d -> length y = dimr t d ->
+  exists r, D_prodMatVecInPlace d x y t = Ok r /\ length r = dimr t d /\
+    forall i, (i < dimr t d)%nat -> nth i r 0 == mvec (dimc t d) (opT t (absd d)) (vl x) i.
+Proof. exact prodMatVecInPlace_dense. Qed.
+Print Assumptions C11_no_ub_prodMatVecInPlace.
+Theorem C11_no_ub_prodVecMatInPlace : forall d x y t, length x = dimr t d -> length y = dimc t d ->
+  exists r, D_prodVecMatInPlace d x y t = Ok r /\ length r = dimc t d /\
+    forall j, (j < dimc t d)%nat -> nth j r 0 = vmat (dimr t d) (vl x) (opT t (absd d)) j.
+Proof. exact prodVecMatInPlace_dense. Qed.
+Print Assumptions C11_no_ub_prodVecMatInPlace.
 
 (* element, row, column access *)
 Theorem C11_setValue_dense : forall d i j v, wfd d -> (i < nr d)%nat -> (j < nc d)%nat ->
@@ -182,20 +170,13 @@ Theorem C11_linearCombination_symmetric : forall d c1 m1 c2 m2 c3 m3, wfd d -> n
 Proof. exact linearCombination_generic_sym. Qed.
 Print Assumptions C11_linearCombination_symmetric.
 
-(* the generic product (reached with operands of different classes): right only when op(y) is square ... *)
-Theorem C11_prodMatMat_generic_partial : forall d x y tx ty,
-  wfd d -> nr y = nc y -> dimc tx x = nr y -> nr d = dimr tx x -> nc d = nc y ->
+(* the generic product (reached with operands of different classes), the four flag combinations, every shape *)
+Theorem C11_prodMatMat_generic : forall d x y tx ty,
+  wfd d -> dimc tx x = dimr ty y -> nr d = dimr tx x -> nc d = dimc ty y ->
   exists r, G_prodMatMat false d x y tx ty = Ok r /\ nr r = nr d /\ nc r = nc d /\
     meq (nr d) (nc d) (absd r) (mmul (dimc tx x) (opT tx (absd x)) (opT ty (absd y))).
-Proof. exact prodMatMat_generic_partial. Qed.
-Print Assumptions C11_prodMatMat_generic_partial.
-(* ... the dimension guard compares with the wrong dimension of y: a well-formed (1x2).(2x1) is refused *)
-Theorem C11_prodMatMat_generic_refuted : exists d x y,
-  wfd d /\ wfd x /\ wfd y /\ nc x = nr y /\ nr d = nr x /\ nc d = nc y /\
-  G_prodMatMat false d x y false false = Ok d /\
-  ~ meq (nr d) (nc d) (absd d) (mmul (nc x) (absd x) (absd y)).
-Proof. exact prodMatMat_generic_refuted. Qed.
-Print Assumptions C11_prodMatMat_generic_refuted.
+Proof. exact prodMatMat_generic. Qed.
+Print Assumptions C11_prodMatMat_generic.
 
 Theorem C11_prodNormMatMat_generic : forall d a m t,
   wfd d -> nr m = dimc t a -> nc m = dimc t a -> nr d = dimr t a -> nc d = dimr t a ->
@@ -210,16 +191,36 @@ Theorem C11_prodNormMatMat_symmetric : forall d a m t,
     meq (nr d) (nc d) (absd r) (mcongr t (dimc t a) (absd a) (absd m)) /\ msymmetric (nr d) (absd r).
 Proof. exact prodNormMatMat_generic_sym. Qed.
 Print Assumptions C11_prodNormMatMat_symmetric.
-(* AMatrix::prodNormMatVecInPlace reads a(k,j) where a(j,k) is meant (and conversely) *)
-Theorem C11_prodNormMatVec_generic_refuted_ub : exists d a v c,
-  wfd d /\ wfd a /\ length v = nc a /\ nr d = nr a /\ nc d = nr a /\ G_prodNormMatVec false d a v false = UB c.
-Proof. exact prodNormMatVec_generic_refuted_ub. Qed.
-Print Assumptions C11_prodNormMatVec_generic_refuted_ub.
-Theorem C11_prodNormMatVec_generic_refuted_value : exists d a r,
-  wfd d /\ wfd a /\ nr a = nc a /\ nr d = nr a /\ nc d = nr a /\ G_prodNormMatVec false d a [] false = Ok r /\
-  ~ meq (nr d) (nc d) (absd r) (mcongr_id false (nc a) (absd a)).
-Proof. exact prodNormMatVec_generic_refuted_value. Qed.
-Print Assumptions C11_prodNormMatVec_generic_refuted_value.
+(* AMatrix::prodNormMatVecInPlace: t(A).diag(v).A / A.diag(v).t(A), or without v when it is empty *)
+Theorem C11_prodNormMatVec_generic : forall d a v t, wfd d -> nr d = dimr t a -> nc d = dimr t a ->
+  exists r, G_prodNormMatVec false d a v t = Ok r /\ nr r = nr d /\ nc r = nc d /\
+    meq (nr d) (nc d) (absd r)
+        (match v with [] => mcongr_id t (dimc t a) (absd a) | _ => mcongr_diag t (dimc t a) (absd a) (vl v) end).
+Proof. exact prodNormMatVec_generic. Qed.
+Print Assumptions C11_prodNormMatVec_generic.
+(* AMatrix::setDiagonal resets the matrix to diag(tab) *)
+Theorem C11_setDiagonal_generic : forall sq d t, wfd d -> isSquare sq d = true -> nr d = nc d -> length t = nc d ->
+  exists r, G_setDiagonal sq false d t = Ok r /\ nr r = nr d /\ nc r = nc d /\ meq (nr d) (nc d) (absd r) (mdiag (vl t)).
+Proof. exact setDiagonal_generic. Qed.
+Print Assumptions C11_setDiagonal_generic.
+
+(* AMatrix::isSymmetric decides |a_ij - a_ji| <= 1e-10 for all i, j of a non-empty square matrix *)
+Theorem C11_isSymmetric_generic : forall d, nr d = nc d -> (0 < nr d)%nat ->
+  (G_isSymmetric false false d = true <->
+   forall i j, (i < nr d)%nat -> (j < nr d)%nat -> Qabs (getv d i j - getv d j i) <= 1 # 10000000000).
+Proof. exact isSymmetric_generic. Qed.
+Print Assumptions C11_isSymmetric_generic.
+Theorem C11_getDiagonal_generic : forall sq d, isSquare sq d = true -> nr d = nc d ->
+  G_getDiagonal sq d 0 = Ok (map (fun r => getv d r r) (seq 0 (nr d))).
+Proof. exact getDiagonal_generic. Qed.
+Print Assumptions C11_getDiagonal_generic.
+(* MatrixRectangular::sample with explicit (possibly repeated, unordered) row and column lists *)
+Theorem C11_sample : forall a rk ck, rk <> [] -> ck <> [] ->
+  (forall r, In r rk -> (r < nr a)%nat) -> (forall c, In c ck -> (c < nc a)%nat) ->
+  exists r, R_sample a rk ck false false = Some r /\ nr r = length rk /\ nc r = length ck /\
+    meq (length rk) (length ck) (absd r) (msample rk ck (absd a)).
+Proof. exact sample_spec. Qed.
+Print Assumptions C11_sample.
 
 (* ================================================================== csparse kernels *)
 (* cs_triplet: the compressed-column matrix holds the accumulated triplets (duplicates add up), for every triplet list *)
@@ -236,34 +237,35 @@ Theorem C11_cs_gaxpy : forall a x y, rows_ok a -> length x = cn a -> length y = 
     forall i, (i < cm a)%nat -> nth i y' 0 == nth i y 0 + sumn (cn a) (fun j => abs_csc a i j * nth j x 0).
 Proof. exact cs_gaxpy_spec. Qed.
 Print Assumptions C11_cs_gaxpy.
-(* both sparse back-ends stand for the same matrix when built from the same triplets *)
-Theorem C11_storage_agree : forall T i j,
-  (i < nr (sem (SE_fromTriplet T)))%nat -> (j < nc (sem (SE_fromTriplet T)))%nat ->
-  getv (sem (SE_fromTriplet T)) i j == abs_csc (scs (SC_fromTriplet T)) i j.
-Proof. exact storage_agree_triplet. Qed.
+(* cs_dupl: duplicates of a column are summed, the mathematical content does not change *)
+Theorem C11_cs_dupl : forall a, rows_in a ->
+  cm (cs_dupl a) = cm a /\ cn (cs_dupl a) = cn a /\ length (cp (cs_dupl a)) = S (cn a) /\
+  forall i j, (j < cn a)%nat -> abs_csc (cs_dupl a) i j == abs_csc a i j.
+Proof. exact cs_dupl_spec. Qed.
+Print Assumptions C11_cs_dupl.
+(* NF_Triplet::buildCsFromTriplet: the csparse storage holds the accumulated triplets, for every triplet list *)
+Theorem C11_buildCs : forall T i j, abs_csc (buildCs T) i j == abs_trip T i j.
+Proof. exact buildCs_spec. Qed.
+Print Assumptions C11_buildCs.
+(* both sparse back-ends stand for the same matrix when built from the same triplets and dimensions *)
+Theorem C11_storage_agree : forall T nrow ncol i j,
+  (i < nr (sem (SE_create T nrow ncol)))%nat -> (j < nc (sem (SE_create T nrow ncol)))%nat ->
+  getv (sem (SE_create T nrow ncol)) i j == abs_csc (scs (SC_create T nrow ncol)) i j.
+Proof. exact storage_agree_full. Qed.
 Print Assumptions C11_storage_agree.
-
-(* MatrixSparse wrappers: witnesses of what the correspondence observes on the library *)
-Theorem C11_prodVecMat_cs_refuted : exists r, SC_prodVecMat (SC_fromTriplet T23) [1; 1] false = r /\ r <> Ok [3; 7; 11].
-Proof. exact prodVecMat_cs_refuted. Qed.
-Print Assumptions C11_prodVecMat_cs_refuted.
-Theorem C11_transpose_cs_refuted : exists s, SC_transposeInPlace (SC_fromTriplet [tr 0 0 1]) = Ok s /\ SC_getValues s = UB ub_segv.
-Proof. exact transpose_cs_refuted. Qed.
-Print Assumptions C11_transpose_cs_refuted.
-Theorem C11_transpose_eigen_refuted : exists s,
-  SE_transposeInPlace (SE_fromTriplet T23) = Ok s /\ enr s = 2%nat /\ nr (sem s) = 3%nat /\ SE_getValues s = UB ub_index.
-Proof. exact transpose_eigen_refuted. Qed.
-Print Assumptions C11_transpose_eigen_refuted.
-Theorem C11_prodVecMatInPlace_eigen_refuted : exists c, SE_prodVecMatInPlace (SE_fromTriplet T23) [1; 1; 1] [0; 0] true = UB c.
-Proof. exact prodVecMatInPlace_eigen_refuted. Qed.
-Print Assumptions C11_prodVecMatInPlace_eigen_refuted.
-Theorem C11_createFromAnyMatrix_refuted : exists d,
-  wfd d /\ nr d = 2%nat /\ snr (SC_fromTriplet (dense_to_triplet d)) = 1%nat /\ enr (SE_fromTriplet (dense_to_triplet d)) = 1%nat.
-Proof. exact fromAny_refuted. Qed.
-Print Assumptions C11_createFromAnyMatrix_refuted.
-Theorem C11_multiplyRow_cs_refuted : exists c, SC_multiplyRow (SC_fromTriplet [tr 0 0 1; tr 0 0 1]) [2] = UB c.
-Proof. exact multiplyRow_cs_refuted. Qed.
-Print Assumptions C11_multiplyRow_cs_refuted.
+(* MatrixSparse::transposeInPlace / transpose(): content transposed and dimensions swapped, both back-ends *)
+Theorem C11_transpose_cs : forall s, rows_ok (scs s) -> (0 < cm (scs s))%nat -> (0 < cn (scs s))%nat ->
+  exists s', SC_transposeInPlace s = Ok s' /\ snr s' = snc s /\ snc s' = snr s /\
+    cm (scs s') = cn (scs s) /\ cn (scs s') = cm (scs s) /\
+    forall i j, (i < cm (scs s))%nat -> (j < cn (scs s))%nat -> abs_csc (scs s') j i == abs_csc (scs s) i j.
+Proof. exact transpose_cs. Qed.
+Print Assumptions C11_transpose_cs.
+Theorem C11_transpose_eigen : forall s,
+  exists s', SE_transposeInPlace s = Ok s' /\ enr s' = enc s /\ enc s' = enr s /\
+    nr (sem s') = nc (sem s) /\ nc (sem s') = nr (sem s) /\
+    forall i j, (i < nr (sem s))%nat -> (j < nc (sem s))%nat -> getv (sem s') j i = getv (sem s) i j.
+Proof. exact transpose_eigen. Qed.
+Print Assumptions C11_transpose_eigen.
 
 (* ================================================================== triangular solves and Cholesky wrappers *)
 Theorem C11_solve_forward : forall n L b eps, pivots_ok n L eps -> mlower n L ->
@@ -303,12 +305,16 @@ Theorem C11_innerProduct : forall a b, length a = length b ->
   fold_left (fun s p => s + fst p * snd p) (combine a b) 0 == dot (length a) (vl a) (vl b).
 Proof. exact innerProduct_spec. Qed.
 Print Assumptions C11_innerProduct.
-Theorem C11_VectorNumT_maximum_refuted : exists v, v <> [] /\ (forall x, In x v -> x < 0) /\ 0 < VN_maximum v.
-Proof. exact VN_maximum_refuted. Qed.
-Print Assumptions C11_VectorNumT_maximum_refuted.
-Theorem C11_VectorNumT_divide_refuted : exists a b, length a = length b /\ (forall x, In x b -> ~ x == 0) /\ VN_divide a b = Exn.
-Proof. exact VN_divide_refuted. Qed.
-Print Assumptions C11_VectorNumT_divide_refuted.
+(* VectorNumT<double>::maximum is the maximum of the list, for every non-empty content *)
+Theorem C11_VectorNumT_maximum : forall v, v <> [] -> (forall x, In x v -> - dbl_max <= x) ->
+  (forall x, In x v -> x <= VN_maximum v) /\ exists x, In x v /\ x == VN_maximum v.
+Proof. exact VN_maximum_spec. Qed.
+Print Assumptions C11_VectorNumT_maximum.
+(* VectorNumT<double>::divide divides entry by entry as soon as no divisor is (numerically) zero *)
+Theorem C11_VectorNumT_divide : forall a b, length a = length b -> (forall x, In x b -> eps10 <= Qabs x) ->
+  VN_divide a b = Ok (map (fun p => fst p / snd p) (combine a b)).
+Proof. exact VN_divide_spec. Qed.
+Print Assumptions C11_VectorNumT_divide.
 
 (* ================================================================== non-vacuity: the hypotheses are satisfiable on non-trivial states
    (results are compared after reduction of every entry to lowest terms: nrmD / nrmV / nrmO) *)
@@ -324,24 +330,32 @@ Example C11_nonvacuous_dense :
   nrmD (D_prodNormMatMat (tab 3 3 mzero) ex_x ex_s true) = Some (3%nat, 3%nat, [18; 40; 62; 40; 90; 140; 62; 140; 218]) /\
   nrmD (D_prodNormMatVec (tab 2 2 mzero) ex_x [] false) = Some (2%nat, 2%nat, [35; 44; 44; 56]).
 Proof. vm_compute. repeat split; reflexivity. Qed.
-(* square scaling, element / row / column access; symmetric setValue keeps the mirror *)
+(* scaling and in-place products on a non-square matrix, element / row / column access; symmetric setValue keeps the mirror *)
 Example C11_nonvacuous_access :
-  nrmD (D_multiplyRow ex_s [2; 3]) = Some (2%nat, 2%nat, [4; 3; 2; 9]) /\ nrmD (D_multiplyColumn ex_s [2; 3]) = Some (2%nat, 2%nat, [4; 2; 3; 9]) /\
+  nrmD (D_multiplyRow ex_x [2; 3]) = Some (2%nat, 3%nat, [2; 6; 6; 12; 10; 18]) /\
+  nrmD (D_divideColumn ex_x [1; 2; 4]) = Some (2%nat, 3%nat, [1; 2; 3 # 2; 2; 5 # 4; 3 # 2]) /\
+  nrmV (D_prodMatVecInPlace ex_x [1; 1] [9; 9; 9] true) = Some [3; 7; 11] /\
+  nrmV (D_prodVecMatInPlace ex_x [1; 0; 2] [9; 9] true) = Some [11; 14] /\
+  nrmD (D_prodNormMatVec (tab 3 3 mzero) ex_x [1; 2] true) = Some (3%nat, 3%nat, [9; 19; 29; 19; 41; 63; 29; 63; 97]) /\
   nrmD (D_setValue false ex_x 1 2 9) = Some (2%nat, 3%nat, [1; 2; 3; 4; 5; 9]) /\
   nrmD (D_setValue true ex_s 1 0 7) = Some (2%nat, 2%nat, [2; 7; 7; 3]) /\
   nrmD (D_setRow ex_x 1 [7; 8; 9]) = Some (2%nat, 3%nat, [1; 7; 3; 8; 5; 9]) /\
   nrmD (D_setColumn ex_x 1 [7; 8]) = Some (2%nat, 3%nat, [1; 2; 7; 8; 5; 6]) /\
   nrmV (D_getRow ex_x 1) = Some [2; 4; 6] /\ nrmV (D_getColumn ex_x 2) = Some [5; 6].
 Proof. vm_compute. repeat split; reflexivity. Qed.
-(* generic loops on a non-square matrix and on the symmetric class; the generic product refuses x.t(x) (2x3 by 3x2)
-   and accepts x.diag (second operand square) *)
+(* generic loops on a non-square matrix and on the symmetric class; generic products x.t(x) (2x3 by 3x2) and x.diag *)
 Example C11_nonvacuous_generic :
   nrmD (G_multiplyRow false ex_x [2; 3]) = Some (2%nat, 3%nat, [2; 6; 6; 12; 10; 18]) /\
   nrmD (G_divideColumn false ex_x [1; 2; 4]) = Some (2%nat, 3%nat, [1; 2; 3 # 2; 2; 5 # 4; 3 # 2]) /\
   nrmD (G_addMat false ex_x ex_y 2 (-(1))) = Some (2%nat, 3%nat, [1; 4; 7; 6; 19 # 2; 9]) /\
   nrmD (G_linearCombination false ex_x 2 (Some ex_y) 1 None 3 (Some ex_x)) = Some (2%nat, 3%nat, [5; 6; 7; 16; 16; 24]) /\
   nrmD (G_linearCombination true ex_s 2 (Some ex_s) 1 (Some ex_s) 1 None) = Some (2%nat, 2%nat, [6; 3; 3; 9]) /\
-  nrmD (G_prodMatMat false (tab 2 2 mzero) ex_x ex_x false true) = Some (2%nat, 2%nat, [0; 0; 0; 0]) /\
+  nrmD (G_prodMatMat false (tab 2 2 mzero) ex_x ex_x false true) = Some (2%nat, 2%nat, [35; 44; 44; 56]) /\
+  nrmD (G_prodNormMatVec false (tab 3 3 mzero) ex_x [1; 2] true) = Some (3%nat, 3%nat, [9; 19; 29; 19; 41; 63; 29; 63; 97]) /\
+  nrmD (G_setDiagonal true false ex_s [7; 8]) = Some (2%nat, 2%nat, [7; 0; 0; 8]) /\
+  G_isSymmetric false false ex_s = true /\ G_isSymmetric false false (mkD 2 2 [1; 2; 3; 4]) = false /\
+  nrmV (G_getDiagonal true ex_s 0) = Some [2; 3] /\
+  nrmD (match R_sample ex_x [1; 1; 0]%nat [2; 0]%nat false false with Some r => Ok r | None => Exn end) = Some (3%nat, 2%nat, [6; 6; 5; 2; 2; 1]) /\
   nrmD (G_prodMatMat false (tab 2 3 mzero) ex_x (mkD 3 3 [1; 0; 0; 0; 2; 0; 0; 0; 1]) false false) = Some (2%nat, 3%nat, [1; 2; 6; 8; 5; 6]) /\
   nrmD (G_prodNormMatMat false (tab 3 3 mzero) ex_x ex_s true) = Some (3%nat, 3%nat, [18; 40; 62; 40; 90; 140; 62; 140; 218]) /\
   nrmD (G_prodNormMatMat true (tab 3 3 mzero) ex_x ex_s true) = Some (3%nat, 3%nat, [18; 40; 62; 40; 90; 140; 62; 140; 218]).
@@ -354,6 +368,20 @@ Example C11_nonvacuous_sparse :
   forallb (fun t => (trow t <? cm (cs_triplet ex_T))%nat) (csc_stream (cs_triplet ex_T)) = true /\
   (match cs_transpose (cs_triplet ex_T) true with Some c => map (fun p => Qred (abs_csc c (fst p) (snd p))) (rowmajor 3 2) | None => [] end) = [1; 1; 0; 0; 5; 6] /\
   nrmV (cs_gaxpy (cs_triplet ex_T) [1; 1; 1] [10; 20]) = Some [16; 27].
+Proof. vm_compute. repeat split; reflexivity. Qed.
+(* MatrixSparse wrappers on the former failing inputs: non-square transposition, x.M, duplicates, trailing zero row *)
+Definition T23 : list trip := [tr 0 0 1; tr 1 0 2; tr 0 1 3; tr 1 1 4; tr 0 2 5; tr 1 2 6].
+Definition Tdup : list trip := [tr 0 0 1; tr 0 0 1; tr 1 1 3].
+Example C11_nonvacuous_sparse_wrappers :
+  nrmSC (SC_transposeInPlace (SC_create T23 2 3)) = Some (3%nat, 2%nat, [1; 3; 5; 2; 4; 6]) /\
+  nrmSE (SE_transposeInPlace (SE_create T23 2 3)) = Some (3%nat, 2%nat, [1; 3; 5; 2; 4; 6]) /\
+  nrmV (SC_prodVecMat (SC_create T23 2 3) [1; 1] false) = Some [3; 7; 11] /\
+  nrmV (SC_prodVecMat (SC_create T23 2 3) [1; 1; 1] true) = Some [9; 12] /\
+  nrmV (SE_prodVecMatInPlace (SE_create T23 2 3) [1; 1; 1] [0; 0] true) = Some [9; 12] /\
+  nrmSC (SC_multiplyRow (SC_create Tdup 2 2) [2; 3]) = Some (2%nat, 2%nat, [4; 0; 0; 9]) /\
+  nrmSC (Ok (SC_create Tdup 2 2)) = nrmSE (Ok (SE_create Tdup 2 2)) /\
+  nrmSC (Ok (SC_create (dense_to_triplet (mkD 2 1 [1; 0])) 2 1)) = Some (2%nat, 1%nat, [1; 0]) /\
+  nrmSE (Ok (SE_create (dense_to_triplet (mkD 2 1 [1; 0])) 2 1)) = Some (2%nat, 1%nat, [1; 0]).
 Proof. vm_compute. repeat split; reflexivity. Qed.
 (* solves: a lower factor with non-trivial off-diagonal terms; its certificate holds *)
 Definition ex_L : mat := fun i j => nth j (nth i [[2; 0; 0]; [1; 1; 0]; [-(3); 2; 4]] []) 0.
@@ -370,5 +398,6 @@ Example C11_nonvacuous_vectors :
   VH_orderRanks [Some 3; Some 1; None; Some 1; Some 3] true None = [1; 3; 0; 4; 2]%nat /\
   VH_orderRanks [Some 3; Some 1; None; Some 1; Some 3] false None = [2; 0; 4; 1; 3]%nat /\
   VH_sortRanks [Some 3; Some 1; None; Some 1] true None = [2; 0; 3; 1]%nat /\
-  Qred (VN_sum [1; 1 # 2; -(3)]) = (-3) # 2 /\ VN_innerProduct [1; 2; 3] [4; 5; 6] = Ok 32.
+  Qred (VN_sum [1; 1 # 2; -(3)]) = (-3) # 2 /\ VN_innerProduct [1; 2; 3] [4; 5; 6] = Ok 32 /\
+  Qred (VN_maximum [-(1); -(3)]) = -(1) /\ nrmV (VN_divide [1; 3] [1 # 2; 4]) = Some [2; 3 # 4].
 Proof. vm_compute. repeat split; reflexivity. Qed.
